@@ -94,7 +94,8 @@ def run_big(case):
             open(arc, "wb").write(mutate.build_from_tree(t2))
         else:
             wcase = {"phase": "write", "arc": arc, "filters": case["filters"], "members": members, "password": case.get("password"),
-                     "how": case.get("how", "writef"), "seed": case.get("seed", 1), "zstd_window": case.get("zstd_window")}
+                     "how": case.get("how", "writef"), "seed": case.get("seed", 1), "zstd_window": case.get("zstd_window"),
+                     "per_session": case.get("per_session"), "linkflag": case.get("linkflag", [])}
             if wcase["how"] == "write":
                 from .. import bigmem
                 wcase["srcdir"] = os.path.join(wd, "src")
@@ -196,6 +197,11 @@ def plan(tier, R):
     add("lzma2-between", F("LZMA2"), small * 10 + [(big, Z)] + small * 10, ("extract-path",))
     add("brotli-between", F("Brotli"), small * 30 + [(big, P_)] + small * 3, ("extract-factory",))
     add("copy-small-first", F("Copy"), small * 300 + [(512 * MiB, X)], ("extract-factory",))
+    # --- several folders, each with a big member, extracted by one worker per folder at the same time (archive opened by name)
+    add("zstd-4-folders", F("ZStd"), [(512 * MiB, Z)] * 4, ("extract-factory", "extract-path", "testzip"), per_session=True)
+    add("lzma2-3-folders-period", F("LZMA2"), [(512 * MiB, P_)] * 3, ("extract-factory",), per_session=True)
+    # --- a member that claims to be a symbolic link (its content would be the link's target): refusing it is fine
+    add("zstd-linkflag", F("ZStd"), [(10, X), (512 * MiB, Z)], ("extract-path",), linkflag=[1], refusal_ok=True)
     # --- a ZStandard frame whose header declares a 1 GiB / 256 MiB window (two bytes of the archive size the decoder's history buffer):
     #     refusing it is fine, decoding it within the budget is fine
     add("zstd-window-2^30", F("ZStd"), [(big, Z)], ("extract-factory", "testzip"), zstd_window=30, refusal_ok=True)
@@ -250,6 +256,8 @@ def run(tier, rep, ev):
             raise MachineryError(f"negative control {cfg} failed: {want} is not violated")
     base = scratch("c20w")
     cases = plan(tier, R)
+    if os.environ.get("VERIF_C20_ONLY"):
+        cases = [c for c in cases if any(w in c["name"] for w in os.environ["VERIF_C20_ONLY"].split(","))]      # (debugging aid)
     for k, c in enumerate(cases):
         c["wd"] = os.path.join(base, f"c{k}")
     # the heaviest first; a handful at a time (every child may hold several hundred MiB, outputs go to a RAM disk)
